@@ -41,6 +41,21 @@ def cdf_decimal(loge, p, lo, hi):
     return (ex - ea) / (eb - ea)
 
 
+def image_decimal(u, p, lo, hi):
+    """Exact inverse-CDF image (log10 E) of the uniform number u, in 60-digit decimal."""
+    import decimal
+
+    with decimal.localcontext() as dc:
+        dc.prec = 60
+        u_, lo_, hi_, p_ = D(float(u)), D(float(lo)), D(float(hi)), D(float(p))
+        mp = 1 - p_
+        if mp == 0:
+            return float(lo_ + u_ * (hi_ - lo_))
+        ln10 = D(10).ln()
+        t = 1 + u_ * ((mp * (hi_ - lo_) * ln10).exp() - 1)
+        return float(hi_) if t <= 0 else float(lo_ + t.ln() / mp / ln10)
+
+
 def run(ctx):
     import icontract
     from nuspacesim.config import NssConfig, Simulation
@@ -100,6 +115,7 @@ def run(ctx):
         cases.append((p, lo, hi))
     hostile = rngctl.HOSTILE_UNIT
     worst = 0.0
+    worst_img = 0.0
     nobs_ill = 0
     nrepr = 0
     for ci, (p, lo, hi) in enumerate(cases):
@@ -163,6 +179,15 @@ def run(ctx):
                     if Fm - 1e-9 <= ui <= Fp + 1e-9:
                         nrepr += 1
                         r = 0.0
+                # forward: the returned log-energy against the exact image of u itself (next to u = 1 a
+                # steep spectrum maps one ulp of u onto a tenth of a decade, so F(E) = u alone says little)
+                ctx.count("image")
+                want_li = image_decimal(ui, p, lo, hi)
+                tol_li = 1e-9 + (1e-14 / abs(1 - p) if p != 1 else 0.0)
+                worst_img = max(worst_img, abs(li - want_li) / tol_li)
+                if not abs(li - want_li) <= tol_li:
+                    ctx.violation("image", f"power law index={p!r} bounds=({lo!r},{hi!r}): u={ui!r} -> log_e_nu={li!r}; the exact inverse-CDF image is {want_li!r} ({abs(li - want_li):.3e} decades away)", dict(wit, u=float(ui).hex(), loge=float(li).hex()))
+                    break
                 worst = max(worst, r)
                 if not r <= 1e-9:
                     ctx.violation("cdf", f"power law index={p!r} bounds=({lo!r},{hi!r}): u={ui!r} -> log_e_nu={li!r} but F(E)={float(F)!r} (|F-u|={r:.3e})", dict(wit, u=float(ui).hex(), loge=float(li).hex()))
@@ -288,10 +313,11 @@ def run(ctx):
         except Exception as e:
             ctx.exception("raises", f"power law N={N} raised", e, {"N": N})
     ctx.track_worst("cdf_residual", worst, 1e-9)
+    ctx.track_worst("image_error_over_tol", worst_img, 1.0)
     ctx.observe("ill_conditioned_index_cases_judged_with_widened_band", nobs_ill)
     ctx.observe("accepted_by_log_energy_band_1e-12", nrepr)
     ctx.count("contracts", ncontract["n"])
-    for m in ("sizes", "integral-unchanged", "plots", "mono", "bounds", "product", "cdf", "monotone", "no-raise", "contracts", "history"):
+    for m in ("sizes", "integral-unchanged", "plots", "mono", "bounds", "product", "cdf", "image", "monotone", "no-raise", "contracts", "history"):
         ctx.require(m)
     return ctx.finish(
         rule="(index, lower, upper) from a boundary catalogue (index in {0,.5,.999,1,1.001,...,4} x 5 bounds) plus seeded random; per configuration 35 uniform numbers (14 hostile incl. 0, denormals, 1-2^-53, 1; grid; random) through the RNG stub and 40 from the real generator observed by the RNG spy; a case is one distinct (index, bounds, u)",
